@@ -137,6 +137,17 @@ func c07RandomScenario(r *rand.Rand) c07Sc {
 		sc.GenPanicAt = r.Intn(sc.N + 1)
 	}
 	sc.Saturate = r.Intn(8) == 0
+	if sc.Entry != "Finish" && sc.Entry != "FinishVoid" && sc.N > 0 && r.Intn(4) == 0 {
+		used := map[int]bool{}
+		for _, kind := range c07SpecialKinds {
+			at := r.Intn(sc.N)
+			if r.Intn(2) == 0 || used[at] || at == sc.GenPanicAt {
+				continue
+			}
+			used[at] = true
+			sc.Special = append(sc.Special, c07Special{At: at, Kind: kind})
+		}
+	}
 	return sc
 }
 
